@@ -564,6 +564,10 @@ def seq_method(interp, recv, name, args, kwargs):
                 st = z3.If(st < 0, z3.If(st + n < 0, 0, st + n), st)
                 return mk_num(z3.IndexOf(t, seq_term(args[0]), st))
             return mk_num(z3.IndexOf(t, seq_term(args[0]), 0))
+        if len(args) == 3 and not is_sym(args[1]) and args[1] == 0:
+            # find(sub, 0, end): search inside t[:end] (end clamped like a slice bound)
+            lo, ln = core.slice_bounds(slice(0, args[2]), n)
+            return mk_num(z3.IndexOf(z3.SubSeq(t, lo, ln), seq_term(args[0]), 0))
     if name == "index" and len(args) == 1:
         r = mk_num(z3.IndexOf(t, seq_term(args[0]), 0))
         if interp.truth(r < 0):
